@@ -196,41 +196,50 @@ __CPROVER_ensures(RV == (nng_err) g_getfd_rv && (RV == 0 ==> *fdp == g_getfd_fd)
  * ===================================================================== */
 #define PB_VAL (*(const int *) buf)
 #define PB_OKARG (t == NNI_TYPE_INT32 && PB_VAL >= 1 && PB_VAL <= 8192)
-#define PB_PIPE_PRE(i, p) (g_np <= (i) || PUB_LMQ_PRE(PQ(p)))
-#define PB_PIPE_ASSIGNS(i, p) __CPROVER_assigns(g_np > (i): (p)->sendq) __CPROVER_frees((p)->sendq.lmq_msgs)
-/* pipe i was resized: exact new depth, the oldest min(len, depth) entries stay, in order */
-#define PB_RESIZED(p) (PQ(p)->lmq_cap == (size_t) PB_VAL && PQ_LEN(p) == VP_MIN(OLD(PQ_LEN(p)), (size_t) PB_VAL) && LMQ_WF_SCALAR(PQ(p)) && (g_k >= PQ_LEN(p) || PQ_VIEW(p, g_k) == OLD(PQ_VIEW(p, g_k))))
-#define PB_UNTOUCHED(p) (PQ(p)->lmq_cap == OLD(PQ(p)->lmq_cap) && PQ_LEN(p) == OLD(PQ_LEN(p)) && LMQ_WF_SCALAR(PQ(p)) && (g_k >= PQ_LEN(p) || PQ_VIEW(p, g_k) == OLD(PQ_VIEW(p, g_k))))
-#define PB_DROPPED(i, p) ((size_t) (g_np > (i) ? OLD(PQ_LEN(p)) - PQ_LEN(p) : 0))
+#define PB_PIPE_PRE(i, p) (PUB_LMQ_PRE(PQ(p)) && PUB_REF_OK(PB_SLOT(p, 0)) && PUB_REF_OK(PB_SLOT(p, 1)) && PUB_REF_OK(PB_SLOT(p, 2)) && PUB_REF_OK(PB_SLOT(p, 3)))
+#define PB_SLOT(p, k) ((p)->sendq.lmq_msgs[k])
+#define PB_SLOT_WR(p, k) PB_SLOT(p, k)->m_refcnt, PB_SLOT(p, k)->m_body
+#define PB_SLOT_FREES(p, k) __CPROVER_frees(PB_SLOT(p, k), PB_SLOT(p, k)->m_body.ch_buf)
+#define PB_PIPE_ASSIGNS(i, p) __CPROVER_assigns(g_np > (i): (p)->sendq, PB_SLOT_WR(p, 0), PB_SLOT_WR(p, 1), PB_SLOT_WR(p, 2), PB_SLOT_WR(p, 3)) \
+	__CPROVER_frees((p)->sendq.lmq_msgs) PB_SLOT_FREES(p, 0) PB_SLOT_FREES(p, 1) PB_SLOT_FREES(p, 2) PB_SLOT_FREES(p, 3)
+/* number of queues resized by this call (each successful resize allocates exactly one new ring) */
+#define PB_NRES (g_alloc_ok - OLD(g_alloc_ok))
+/* pipe's queue was resized: exact new depth; the oldest min(len, depth) entries stay, in order and
+ * untouched; every younger entry is released exactly once (whole messages only); old ring released */
+#define PB_RESIZED(p) (PQ(p)->lmq_cap == (size_t) PB_VAL && PQ_LEN(p) == VP_MIN(OLD(PQ_LEN(p)), (size_t) PB_VAL) && LMQ_WF_SCALAR(PQ(p)) && PQ(p)->lmq_alloc >= 2 && \
+	FREED(OLD(PQ(p)->lmq_msgs)) && \
+	(g_j >= PQ_LEN(p) || (PQ_VIEW(p, g_j) == OLD(PQ_VIEW(p, g_j)) && PUB_KEPT(PQ_VIEW(p, g_j)))) && \
+	(g_j < PQ_LEN(p) || g_j >= OLD(PQ_LEN(p)) || PUB_RELEASED(PQ_VIEW(p, g_j))) && \
+	(g_j < OLD(PQ_LEN(p)) || g_j >= PUB_QSLOTS || PUB_KEPT(PQ_VIEW(p, g_j))))
+#define PB_UNTOUCHED(p) (PQ(p)->lmq_cap == OLD(PQ(p)->lmq_cap) && PQ_LEN(p) == OLD(PQ_LEN(p)) && PQ(p)->lmq_get == OLD(PQ(p)->lmq_get) && PQ(p)->lmq_put == OLD(PQ(p)->lmq_put) && \
+	PQ(p)->lmq_alloc == OLD(PQ(p)->lmq_alloc) && PQ(p)->lmq_mask == OLD(PQ(p)->lmq_mask) && PQ(p)->lmq_msgs == OLD(PQ(p)->lmq_msgs) && !FREED(OLD(PQ(p)->lmq_msgs)) && \
+	(g_j >= PUB_QSLOTS || (PQ_VIEW(p, g_j) == OLD(PQ_VIEW(p, g_j)) && PUB_KEPT(PQ_VIEW(p, g_j)))))
+#define PB_PIPE_POST(i, p) (g_np <= (i) || (PB_NRES > (i) ? PB_RESIZED(p) : PB_UNTOUCHED(p)))
 static nng_err pub0_sock_set_sendbuf(void *arg, const void *buf, size_t sz, nni_type t)
-__CPROVER_requires(arg == g_s && VP_NO_LOCK_HELD && g_np <= 3 && g_s->sendbuf >= 1 && g_s->sendbuf <= 8192)
+__CPROVER_requires(arg == g_s && VP_NO_LOCK_HELD && g_np <= PUB_NPMAX && g_s->sendbuf >= 1 && g_s->sendbuf <= 8192)
 __CPROVER_requires(t == NNI_TYPE_INT32 ==> __CPROVER_is_fresh(buf, sizeof(int)))
-__CPROVER_requires(PB_PIPE_PRE(0, g_pp0) && PB_PIPE_PRE(1, g_pp1) && PB_PIPE_PRE(2, g_pp2))
-__CPROVER_assigns(g_s->sendbuf, VP_SYNC_GHOSTS, g_msg_freed, g_msg_freed_at_j, g_free_calls, g_alloc_ok)
-PB_PIPE_ASSIGNS(0, g_pp0) PB_PIPE_ASSIGNS(1, g_pp1) PB_PIPE_ASSIGNS(2, g_pp2)
+PS_IF0(__CPROVER_requires(PB_PIPE_PRE(0, g_pp0))) PS_IF1(__CPROVER_requires(PB_PIPE_PRE(1, g_pp1))) PS_IF2(__CPROVER_requires(PB_PIPE_PRE(2, g_pp2)))
+__CPROVER_assigns(g_s->sendbuf, VP_SYNC_GHOSTS, g_free_calls, g_alloc_ok, g_alloc_fail)
+PS_IF0(PB_PIPE_ASSIGNS(0, g_pp0)) PS_IF1(PB_PIPE_ASSIGNS(1, g_pp1)) PS_IF2(PB_PIPE_ASSIGNS(2, g_pp2))
 __CPROVER_ensures(VP_NO_LOCK_HELD && PUB_LIST_IS(g_np))
 __CPROVER_ensures(RV == NNG_OK || RV == NNG_EBADTYPE || RV == NNG_EINVAL || RV == NNG_ENOMEM)
 /* wrong type or out of range: refused, nothing changes */
 __CPROVER_ensures(t != NNI_TYPE_INT32 ==> RV == NNG_EBADTYPE)
 __CPROVER_ensures((t == NNI_TYPE_INT32 && !PB_OKARG) ==> RV == NNG_EINVAL)
-__CPROVER_ensures(!PB_OKARG ==> (g_s->sendbuf == OLD(g_s->sendbuf) && g_msg_freed == OLD(g_msg_freed) && VP_HEAP_DELTA(0, 0)))
-__CPROVER_ensures((!PB_OKARG && g_np > 0) ==> PB_UNTOUCHED(g_pp0))
-__CPROVER_ensures((!PB_OKARG && g_np > 1) ==> PB_UNTOUCHED(g_pp1))
-__CPROVER_ensures((!PB_OKARG && g_np > 2) ==> PB_UNTOUCHED(g_pp2))
+__CPROVER_ensures(!PB_OKARG ==> (g_s->sendbuf == OLD(g_s->sendbuf) && PB_NRES == 0 && g_alloc_fail == OLD(g_alloc_fail) && g_free_calls == OLD(g_free_calls)))
 /* accepted: the socket remembers the depth for future pipes (range invariant 1..8192 kept) */
 __CPROVER_ensures(PB_OKARG ==> (g_s->sendbuf == (size_t) PB_VAL && (RV == NNG_OK || RV == NNG_ENOMEM)))
 __CPROVER_ensures(g_s->sendbuf >= 1 && g_s->sendbuf <= 8192)
-/* success: EVERY attached pipe's queue has the new depth; whole messages only are dropped, from
- * the young end, each released once (g_msg_freed counts them: contract of nni_lmq_resize) */
-__CPROVER_ensures((PB_OKARG && RV == NNG_OK && g_np > 0) ==> PB_RESIZED(g_pp0))
-__CPROVER_ensures((PB_OKARG && RV == NNG_OK && g_np > 1) ==> PB_RESIZED(g_pp1))
-__CPROVER_ensures((PB_OKARG && RV == NNG_OK && g_np > 2) ==> PB_RESIZED(g_pp2))
-__CPROVER_ensures(PB_OKARG ==> g_msg_freed == OLD(g_msg_freed) + PB_DROPPED(0, g_pp0) + PB_DROPPED(1, g_pp1) + PB_DROPPED(2, g_pp2))
-/* out of memory part way: every queue is either resized or untouched - never torn */
-__CPROVER_ensures((PB_OKARG && RV != NNG_OK) ==> g_np > 0)
-__CPROVER_ensures((PB_OKARG && RV != NNG_OK && g_np > 0) ==> (PB_RESIZED(g_pp0) || PB_UNTOUCHED(g_pp0)))
-__CPROVER_ensures((PB_OKARG && RV != NNG_OK && g_np > 1) ==> (PB_RESIZED(g_pp1) || PB_UNTOUCHED(g_pp1)))
-__CPROVER_ensures((PB_OKARG && RV != NNG_OK && g_np > 2) ==> (PB_RESIZED(g_pp2) || PB_UNTOUCHED(g_pp2)))
+/* the attached pipes are resized in list order; success = all of them; out of memory = the first
+ * PB_NRES of them, every later queue is untouched - no queue is ever torn */
+__CPROVER_ensures(PB_NRES <= g_np && (PB_OKARG ==> ((RV == NNG_OK) == (PB_NRES == g_np))))
+__CPROVER_ensures(g_alloc_fail == OLD(g_alloc_fail) + (RV == NNG_ENOMEM ? 1 : 0))
+PS_IF0(__CPROVER_ensures(PB_PIPE_POST(0, g_pp0)))
+PS_IF1(__CPROVER_ensures(PB_PIPE_POST(1, g_pp1)))
+PS_IF2(__CPROVER_ensures(PB_PIPE_POST(2, g_pp2)))
+PS_IF0(__CPROVER_ensures((g_np > 0 && PB_NRES > 0) ==> __CPROVER_is_fresh(g_pp0->sendq.lmq_msgs, g_pp0->sendq.lmq_alloc * sizeof(nng_msg *))))
+PS_IF1(__CPROVER_ensures((g_np > 1 && PB_NRES > 1) ==> __CPROVER_is_fresh(g_pp1->sendq.lmq_msgs, g_pp1->sendq.lmq_alloc * sizeof(nng_msg *))))
+PS_IF2(__CPROVER_ensures((g_np > 2 && PB_NRES > 2) ==> __CPROVER_is_fresh(g_pp2->sendq.lmq_msgs, g_pp2->sendq.lmq_alloc * sizeof(nng_msg *))))
 ;
 
 static nng_err pub0_sock_get_sendbuf(void *arg, void *buf, size_t *szp, nni_type t)
@@ -317,6 +326,35 @@ __CPROVER_ensures(!PX_ATTACHED ==> PUB_LIST_IS(g_np))
 __CPROVER_ensures((PX_ATTACHED && arg == g_pp0) ==> PUB_LIST3_IS(PUB_HEAD, g_np - 1, &g_pp1->node, &g_pp2->node, &g_pp2->node))
 __CPROVER_ensures((PX_ATTACHED && arg == g_pp1) ==> PUB_LIST3_IS(PUB_HEAD, g_np - 1, &g_pp0->node, &g_pp2->node, &g_pp2->node))
 __CPROVER_ensures((PX_ATTACHED && arg == g_pp2) ==> PUB_LIST3_IS(PUB_HEAD, g_np - 1, &g_pp0->node, &g_pp1->node, &g_pp1->node))
+;
+/* pub0_pipe_stop / pub0_pipe_fini: both per-pipe aios are stopped / finalised; fini releases what is
+ * still queued (each entry exactly once) and the ring */
+static void pub0_pipe_stop(void *arg)
+__CPROVER_requires(arg == g_pp0)
+__CPROVER_assigns(g_aio_stop_calls)
+__CPROVER_ensures(g_aio_stop_calls == OLD(g_aio_stop_calls) + 2)
+;
+#define PF_P g_pp0
+#define PF_SLOT(k) (PF_P->sendq.lmq_msgs[k])
+#define PF_SLOT_FREES(k) __CPROVER_frees(PF_SLOT(k), PF_SLOT(k)->m_body.ch_buf)
+static void pub0_pipe_fini(void *arg)
+__CPROVER_requires(arg == PF_P && PUB_LMQ_PRE(PQ(PF_P)))
+__CPROVER_requires(PUB_REF_OK(PF_SLOT(0)) && PUB_REF_OK(PF_SLOT(1)))
+#ifndef PUB_INLINE
+__CPROVER_requires(PUB_REF_OK(PF_SLOT(2)) && PUB_REF_OK(PF_SLOT(3)))
+#endif
+__CPROVER_assigns(PF_P->sendq.lmq_get, PF_P->sendq.lmq_len, g_free_calls, g_aio_fini_calls)
+__CPROVER_assigns(PF_SLOT(0)->m_refcnt, PF_SLOT(1)->m_refcnt, PF_SLOT(0)->m_body, PF_SLOT(1)->m_body)
+PF_SLOT_FREES(0) PF_SLOT_FREES(1)
+#ifndef PUB_INLINE
+__CPROVER_assigns(PF_SLOT(2)->m_refcnt, PF_SLOT(3)->m_refcnt, PF_SLOT(2)->m_body, PF_SLOT(3)->m_body)
+PF_SLOT_FREES(2) PF_SLOT_FREES(3)
+__CPROVER_frees(PF_P->sendq.lmq_msgs)
+__CPROVER_ensures(FREED(OLD(PF_P->sendq.lmq_msgs)))
+#endif
+__CPROVER_ensures(g_aio_fini_calls == OLD(g_aio_fini_calls) + 2 && PQ_LEN(PF_P) == 0)
+__CPROVER_ensures(g_j < OLD(PQ_LEN(PF_P)) ==> PUB_RELEASED(PQ_VIEW(PF_P, g_j)))
+__CPROVER_ensures((g_j >= OLD(PQ_LEN(PF_P)) && g_j <= OLD(PF_P->sendq.lmq_mask)) ==> PUB_KEPT(PQ_VIEW(PF_P, g_j)))
 ;
 /* clang-format on */
 #endif
